@@ -280,6 +280,10 @@ def stepExtra (line : String) : String :=
           | ["t", h] => (do let t ← unhex h; pure (some t))
           | _ => none)
         pure s!"{hex (ErrMsg.message p fn inp e)} 1").getD bad
+  | ["errmsg.digit", c] =>
+    (do let c ← c.toNat?
+        if c ≥ 256 then none
+        pure (hex (ErrMsg.invalidDigitText c))).getD bad
   | ["errmsg.real", pkg, fn, inp, max] =>
     (do let p ← xErrPkg pkg; let fn ← unhex fn; let inp ← unhex inp; let max ← max.toNat?
         if max = 0 || inp.length ≤ max then none
